@@ -68,6 +68,16 @@ def cases(tier, seed):
                 yield {"fam": fam, "n": n, "sector": sec, "depth": 2, "shard": a.name}
             else:
                 yield {"fam": fam, "n": n, "sector": sec, "depth": depth, "shard": a.name}
+    # histories: a gauge sweep of both states (flags: to_right=True, centre at site 0), then a sum / an operator application that keeps
+    # those flags on tensors that are no longer right-canonical; every single action of the alphabet follows (three-step histories)
+    for fam, n in (("elec", 3), ("two", 3)) + ((("eph", 4), ("elec", 4)) if tier != "quick" else ()):
+        for sec in sectors(fam, n):
+            st, acts = build(fam, n, tuple(sec), seed)
+            for prefix in ("swept-sum", "swept-applied"):
+                for a in acts:
+                    if tier == "quick" and not (a.name.startswith(("a.", "a=")) or "evolve" in a.name or "optimize" in a.name):
+                        continue
+                    yield {"fam": fam, "n": n, "sector": sec, "depth": 1, "shard": a.name, "prefix": prefix}
     yield from tree_cases(tier)
     yield from ctor_cases(tier)
 
@@ -265,6 +275,17 @@ def run_case(desc, seed):
     fam, n, sec = desc["fam"], desc["n"], tuple(desc["sector"])
     ch = _chain(fam, n, seed)
     st0, acts = build(fam, n, sec, seed)
+    if desc.get("prefix"):
+        a, b = st0.regs["a"], st0.regs["b"]
+        a.canonicalise()
+        b.canonicalise()
+        if desc["prefix"] == "swept-sum":
+            st0.regs["a"] = a.add(b)
+        else:
+            st0.regs["a"] = st0.regs["O"].apply(a)
+        st0.sh["a"] = M.dense_of(st0.regs["a"])
+        st0.sh["b"] = M.dense_of(b)
+        st0.trace = [f"prefix:{desc['prefix']}"]
     inv = make_invariants(ch)
     stats = {}
     viol = {}
